@@ -174,13 +174,13 @@ class Histories(SubCheck):
                 raise Violation('C13/volume', 'volume() = %d, sum over shard databases = %d (%r)' % (fc.volume(), sum(vols), vols))
             if len(fc) != sum(counts):
                 raise Violation('C13/len', 'len = %d, rows over shard databases = %d' % (len(fc), sum(counts)))
-            warns = fc.check()
+            warns = common.run_check(fc)
             if warns:
-                raise Violation('C13/check-consistent', 'check() on an undamaged sharded cache reported %s' % short([str(w.message) for w in warns], 400))
+                raise Violation('C13/check-consistent', 'check() on an undamaged sharded cache reported %s' % short(warns, 400))
             for i in range(shards):
                 with open(os.path.join(path, '%03d' % i, 'stray-%d.txt' % i), 'w') as f:
                     f.write('x')
-            warns = [str(w.message) for w in fc.check()]
+            warns = common.run_check(fc)
             unknown = [w for w in warns if 'unknown file' in w]
             for i in range(shards):
                 n = sum(1 for w in unknown if ('stray-%d.txt' % i) in w)
